@@ -135,6 +135,7 @@ func c12Scenarios(tier string) []*Scenario {
 		}
 		if R == 0 {
 			out = append(out, c12Redial(bound))
+			out = append(out, c12ConcurrentDials(bound))
 			for _, extraA := range []string{"dup-success", "late-fail", "none"} {
 				for _, kindB := range []string{"silent", "success", "fail"} {
 					out = append(out, c12TwoConns(extraA, kindB, bound))
@@ -699,4 +700,62 @@ func c12TwoConns(extraA, kindB string, bound int) *Scenario {
 	}
 	return &Scenario{Name: fmt.Sprintf("handshake/second-dial/extra-on-first=%s/second-peer=%s", extraA, kindB), Body: body, Check: check, Outcome: outcome,
 		Bound: bound, Horizon: 6 * c12Interval}
+}
+
+// c12ConcurrentDials: two goroutines dial with ONE Client at the same time; each peer answers its
+// CER with a success CEA. Both dials must succeed and both connections must stay open.
+type c12Conc struct {
+	c   [2]*vnet.Conn
+	ok  [2]bool
+	ret [2]bool
+	err [2]error
+}
+
+var c12conc *c12Conc
+
+func c12ConcurrentDials(bound int) *Scenario {
+	body := func() {
+		st := &c12Conc{}
+		c12conc = st
+		settings := &sm.Settings{OriginHost: "cli", OriginRealm: "test", VendorID: 13, ProductName: "prod", FirmwareRevision: 7,
+			HostIPAddresses: []datatype.Address{datatype.Address(net.ParseIP("10.0.0.2"))}}
+		mach := sm.New(settings)
+		cli := &sm.Client{Handler: mach, Dict: dict.Default, MaxRetransmits: 0, RetransmitInterval: c12Interval,
+			AuthApplicationID: []*diam.AVP{diam.NewAVP(avp.AuthApplicationID, avp.Mbit, 0, datatype.Unsigned32(4))}}
+		for i := 0; i < 2; i++ {
+			i := i
+			st.c[i] = vnet.NewConn(fmt.Sprintf("C%d", i+1))
+			st.c[i].Pieces = 1
+			vs.GoNamed(fmt.Sprintf("peer%d", i+1), true, func() {
+				p := &Peer{C: st.c[i]}
+				if cer := p.Next(); cer != nil && cer.Hdr.Code == 257 {
+					st.c[i].Deliver(peerAnswer(cer, 2001, true))
+				}
+			})
+			vs.GoNamed(fmt.Sprintf("dialer%d", i+1), false, func() {
+				c, err := cli.NewConn(st.c[i], "peer")
+				st.ok[i], st.err[i], st.ret[i] = c != nil && err == nil, err, true
+			})
+		}
+	}
+	check := func(s *vs.Sched) string {
+		st := c12conc
+		var v []string
+		for i := 0; i < 2; i++ {
+			switch {
+			case !st.ret[i]:
+				v = append(v, fmt.Sprintf("dial %d never returned", i+1))
+			case !st.ok[i]:
+				v = append(v, fmt.Sprintf("two goroutines dial with one Client at the same time, each peer answers its CER with a success CEA: dial %d failed: %v", i+1, st.err[i]))
+			case st.c[i].Closed:
+				v = append(v, fmt.Sprintf("connection %d was closed after a successful handshake", i+1))
+			}
+		}
+		for _, p := range s.Panics() {
+			v = append(v, "panic: "+p)
+		}
+		return strings.Join(v, " | ")
+	}
+	return &Scenario{Name: "handshake/concurrent-dials-one-client", Body: body, Check: check, Bound: bound, Horizon: 4 * c12Interval,
+		Outcome: func(s *vs.Sched) string { return fmt.Sprint(c12conc.ok, c12conc.c[0].Closed, c12conc.c[1].Closed) }}
 }
